@@ -60,16 +60,19 @@ Proof.
   revert h. induction ops as [|o ops IH]; intros h Hg Hc; [exact Hc|].
   cbn [fold_left]. apply IH.
   - intros v Hin. apply Hg. right. exact Hin.
-  - destruct o as [c| |v| |b| | |]; cbn;
+  - destruct o as [c| |v| |b| | | | |c| | |]; cbn;
       [exact Hc | apply conn_clean_set_close; exact Hc
       | apply conn_clean_set_conn; [apply Hg; left; reflexivity|exact Hc]
-      | exact Hc | exact Hc | exact Hc | exact Hc | exact Hc].
+      | exact Hc | exact Hc | exact Hc | exact Hc
+      | unfold rhdr_reset_close; destruct (rh_close (h_rh h)); [apply conn_clean_init|exact Hc]
+      | apply conn_clean_init | apply conn_clean_init | exact Hc | exact Hc | exact Hc].
 Qed.
 
 Lemma run_handler_clean ops st0 : ops_guard ops -> conn_clean (h_rh (run_handler ops (hstate0 st0))).
 Proof.
   intros Hg. unfold run_handler, after_handler.
-  destruct (h_timeout (fold_left apply_hop ops (hstate0 st0))); [apply conn_clean_init|].
+  destruct (h_timeout (fold_left apply_hop ops (hstate0 st0))).
+  { cbn. destruct (h_tclose (fold_left apply_hop ops (hstate0 st0))); [apply conn_clean_set_close|]; apply conn_clean_init. }
   apply apply_hops_clean; [exact Hg|apply conn_clean_init].
 Qed.
 
